@@ -52,6 +52,7 @@ pub fn run(args: &Args) {
     let mut rng = Rng::new(args.seed, "c01", args.shard);
     let n_grammars = args.budget(60_000, 3_000_000);
     let mut cfg = GenCfg::new(Profile::Full);
+    cfg.nonatomic_skip_rules = true;
     cfg.wild_left_refs_pct = 3;
     if let Some(path) = &args.replay {
         replay(args, &mut rep, path);
